@@ -180,6 +180,44 @@ def run_case(case, stats):
                 if d2.is_doomed and not d2.messages:
                     raise Violation("doomed-without-message", f"doomed verdict (executor, custom filter) has no message; {ctx}", half="executor")
                 stats.c["custom-filter:" + ("doomed" if not kept else "not-doomed")] += 1
+        # history: the tree is evaluated (iteration execute, or Processor.process for multi-engine / SQL trees), which
+        # attaches payloads to its materializations, and is then diagnosed again with the same truthful executor
+        if "mat" in kinds(prog) and truth.det and not state["ambiguous"] and empty_known:
+            from lsst.daf.relation import Materialization
+
+            from vf.core.prog import lib_nodes
+
+            try:
+                if which == "iter":
+                    env.run_iter(root)
+                else:
+                    from vf.core.proc import make_processor
+
+                    make_processor(env).process(root)
+                evaluated = any(isinstance(n, Materialization) and n.payload is not None for n in lib_nodes(root))
+            except Exception:
+                evaluated = False  # (executability is the subject of other properties)
+            if evaluated:
+                asked.clear()
+                try:
+                    d3 = Diagnostics.run(root, executor)
+                    d4 = Diagnostics.run(root)
+                except Exception as e:
+                    raise Violation("diagnostics-raised", f"after the tree was evaluated: {type(e).__name__}: {e}; {ctx}", exc=e)
+                if not state["ambiguous"]:
+                    if d3.is_doomed != is_empty:
+                        raise Violation(
+                            "doomed-but-has-rows" if d3.is_doomed else "not-doomed-but-empty",
+                            f"after the tree was evaluated (materializations carry payloads), verdict with truthful executor: is_doomed={d3.is_doomed}, true rows {truth.rows[:4]}; messages {d3.messages}; {ctx}",
+                            half="executor-after-evaluation",
+                        )
+                    if d3.is_doomed and not d3.messages:
+                        raise Violation("doomed-without-message", f"doomed verdict (executor, after the tree was evaluated) has no message; {ctx}", half="executor-after-evaluation")
+                if d4.is_doomed and not is_empty:
+                    raise Violation("doomed-but-has-rows", f"after the tree was evaluated, static verdict doomed, true rows {truth.rows[:4]}; messages {d4.messages}; {ctx}", half="static-after-evaluation")
+                if d4.is_doomed and not d4.messages:
+                    raise Violation("doomed-without-message", f"doomed verdict (static, after the tree was evaluated) has no message; {ctx}", half="static-after-evaluation")
+                stats.c["history:diagnosed-after-evaluation"] += 1
         ks = set(kinds(prog))
         if ks & {"sel", "slice", "join"} or any(l[4] == "doomed" for l in leaves):
             cls = which + "/" + ("empty" if (empty_known and is_empty) else "nonempty" if empty_known else "ambiguous")
